@@ -14,12 +14,15 @@ import (
 	vs "github.com/trzsz/trzsz-go/zzverif/vsched"
 )
 
-var c09Components = []string{"a", "..", ".", "", "/", "/abs", "a/b", `a\b`, "../x", "../victim.txt", "victim.txt", strings.Repeat("N", 300)}
+var c09Components = []string{"a", "..", ".", "", "/", "/abs", "a/b", `a\b`, "../x", "../victim.txt", "../../victim.txt", "victim.txt", strings.Repeat("N", 300)}
 
 type c09Case struct {
 	W       wParams  `json:"w"`
 	Rel     []string `json:"rel"`     // hostile path list of the file entry
 	Archive bool     `json:"archive"` // entry travels inside an archive stream (below a directory record)
+	// Prior: an ordinary directory record ["a"] with the same path id precedes the hostile record (the receiver
+	// remembers a local name per path id and substitutes it for the first element of later records)
+	Prior bool `json:"prior,omitempty"`
 }
 
 type c09Params struct {
@@ -70,6 +73,9 @@ func c09Run(j vs.Job) *vs.JobResult {
 			if c.Archive {
 				files = append(files, &sourceFile{PathID: 0, AbsPath: filepath.Join(root, "payload"), RelPath: []string{"adir"}, IsDir: true, Perm: &dperm})
 				files = append(files, &sourceFile{PathID: 0, AbsPath: payload, RelPath: append([]string{"adir"}, c.Rel...), Size: 15, Perm: &perm})
+			} else if c.Prior {
+				files = append(files, &sourceFile{PathID: 0, AbsPath: filepath.Join(root, "payload"), RelPath: []string{"a"}, IsDir: true, Perm: &dperm})
+				files = append(files, &sourceFile{PathID: 0, AbsPath: payload, RelPath: c.Rel, Size: 15, Perm: &perm})
 			} else {
 				files = append(files, &sourceFile{PathID: 0, AbsPath: payload, RelPath: c.Rel, Size: 15, Perm: &perm})
 			}
@@ -109,7 +115,7 @@ func c09Run(j vs.Job) *vs.JobResult {
 			r.Notes = append(r.Notes, fmt.Sprintf("srvErr=%q clientFail=%q serverFail=%q exit=%q dst=%v outside-before=%v outside-after=%v", res.SrvErr, res.ClientFail, res.ServerFail, res.ClientExit, res.Dst, before, after))
 		}
 		if v != "" {
-			r.Violate(fmt.Sprintf("c09:%s:%q:%v", c.W.String(), c.Rel, c.Archive), fmt.Sprintf("%s rel=%q archive=%v: %s", c.W.String(), c.Rel, c.Archive, v), nil)
+			r.Violate(fmt.Sprintf("c09:%s:%q:%v:%v", c.W.String(), c.Rel, c.Archive, c.Prior), fmt.Sprintf("%s rel=%q archive=%v after-a-directory-record-with-the-same-path-id=%v: %s", c.W.String(), c.Rel, c.Archive, c.Prior, v), nil)
 		}
 	}
 	for h := range states {
@@ -162,6 +168,7 @@ func c09Cases(tier string) []c09Case {
 						out = append(out, c09Case{W: w, Rel: l})
 						if dm && len(l) <= 2 {
 							out = append(out, c09Case{W: w, Rel: l, Archive: true})
+							out = append(out, c09Case{W: w, Rel: l, Prior: true})
 						}
 					}
 				}
@@ -175,7 +182,7 @@ func init() {
 	vs.Register(&vs.Check{
 		ID:    "C09",
 		Level: "exploration",
-		Rule: "peer-supplied names: every list of 1..2 (quick) / 1..3 (thorough) components over {a, .., ., empty, /, /abs, a/b, a\\b, ../x, ../victim.txt, victim.txt, 300-byte name} as JSON path list, as plain NAME (last element) and as archive entry header " +
+		Rule: "peer-supplied names: every list of 1..2 (quick) / 1..3 (thorough) components over {a, .., ., empty, /, /abs, a/b, a\\b, ../x, ../victim.txt, ../../victim.txt, victim.txt, 300-byte name} as JSON path list, as plain NAME (last element), as archive entry header, and as second record after an ordinary directory record with the same path id " +
 			"x overwrite x directory mode x protocol x receiving role (client downloading / server receiving); each a full transfer by the real sendFiles fed doctored records; oracle: full snapshot of everything outside the destination is unchanged",
 		Assumptions: []string{"the upload sender is the body of TrzszFilter.uploadFiles re-assembled from the product's own functions (the property is about the receiver)", "'\\' is not a separator on this platform"},
 		QuickBudget: 100, ThoroughBudget: 900, DiedIsViolation: true,
